@@ -13,7 +13,7 @@ import (
 const safeLZ77Boundary = 4
 
 func (c *level1context) generate(flush bool, input []byte, processed int, offset int, tokens []token, maxToken int) (nOffset int, ntokens []token) {
-	if cpu.ArchLevel < 1 || len(tokens)+safeLZ77Boundary > cap(tokens) {
+	if cpu.ArchLevel < 3 || len(tokens)+safeLZ77Boundary > cap(tokens) {
 		return lz77(flush, c.table[:], 1<<12-1, 1<<c.windowLevel, &c.hist, input, processed, offset, tokens, maxToken)
 	}
 	if c.windowLevel == 12 {
@@ -25,7 +25,7 @@ func (c *level1context) generate(flush bool, input []byte, processed int, offset
 }
 
 func (c *level2context) generate(flush bool, input []byte, processed int, offset int, tokens []token, maxToken int) (nOffset int, ntokens []token) {
-	if cpu.ArchLevel < 1 || len(tokens)+safeLZ77Boundary > cap(tokens) {
+	if cpu.ArchLevel < 3 || len(tokens)+safeLZ77Boundary > cap(tokens) {
 		return lz77(flush, c.table[:], 1<<15-1, 1<<c.windowLevel, &c.hist, input, processed, offset, tokens, maxToken)
 	}
 	if c.windowLevel == 12 {
